@@ -258,7 +258,10 @@ class CallMixin:
                 self.apply_modifies(rs.modifies if rs.modifies is not None else fs.modifies)
                 for c in rs.ensures:
                     self.assume(truthy(self.spec_eval(c.node, env, old_state=pre, old_locals=pre_locals)))
-                raise PyExc(ExcVal(exc))
+                ev = ExcVal(exc)
+                for an, anode in rs.attrs.items():
+                    ev.attrs[an] = self.spec_eval(anode, env, old_state=pre, old_locals=pre_locals)
+                raise PyExc(ev)
         # normal outcome
         self.apply_modifies(fs.modifies)
         rts = (case or {}).get('returns', fs.returns)
